@@ -93,7 +93,7 @@ def hist_suite(ctx, vh):
     out += ctx.run_engine(vh, "hist", simb, opts={"hello": 1, "reps": 3, "boot_all": 1}, tag="hist-sim", timeout=1800)
     # pinned regressions (histories that once failed)
     import glob, os
-    pins = sorted(glob.glob(os.path.join(verif.REPLAYS, "pinned", "C0*.json")) + glob.glob(os.path.join(verif.REPLAYS, "pinned", "C19*.json")))
+    pins = sorted(glob.glob(os.path.join(verif.PINNED, "C0*.json")) + glob.glob(os.path.join(verif.PINNED, "C19*.json")))
     for p in pins:
         case = json.load(open(p))["case"]
         if "steps" in case["input"]:
